@@ -2,7 +2,7 @@
    run, each discharged by closed computation.  When the source changes shape,
    exactly the lemma naming that shape stops checking. *)
 From FwdLib Require Import Bytes.
-From G12 Require Import Tables Expected Errors Exchange.
+From G12 Require Import Tables Expected Errors Exchange ErrorsProofs.
 
 (* --- shapes the accounting theorems need (C13) --- *)
 (* writeResponse consults skipTraceWroteResponse only for writes whose caller reports the completion later *)
@@ -31,6 +31,37 @@ Proof. vm_compute. reflexivity. Qed.
 Lemma ob_close_uses_once : close_uses_once = true.
 Proof. vm_compute. reflexivity. Qed.
 Lemma ob_close_calls_underlying : close_calls_underlying = true.
+Proof. vm_compute. reflexivity. Qed.
+
+(* --- the error classifier (C12) --- *)
+(* the handlers are tried in this order *)
+Lemma ob_handler_order : handler_order = expected_order.
+Proof. vm_compute. reflexivity. Qed.
+(* every status constant of a handler, every ErrorStatus literal in the sources and the
+   loop bounds of handleStatusText lie in 400..599 *)
+Lemma ob_codes_ok : codes_ok = true.
+Proof. vm_compute. reflexivity. Qed.
+Lemma ob_goos_not_windows : goos_windows = false.
+Proof. vm_compute. reflexivity. Qed.
+Lemma ob_code_net_timeout : code_net_timeout = 504.
+Proof. vm_compute. reflexivity. Qed.
+Lemma ob_code_net_other : code_net_other = 502.
+Proof. vm_compute. reflexivity. Qed.
+Lemma ob_code_tls_record : code_tls_record = 502.
+Proof. vm_compute. reflexivity. Qed.
+Lemma ob_code_tls_cert : code_tls_cert = 502.
+Proof. vm_compute. reflexivity. Qed.
+Lemma ob_code_tls_ech : code_tls_ech = 502.
+Proof. vm_compute. reflexivity. Qed.
+Lemma ob_code_tls_alert : code_tls_alert = 502.
+Proof. vm_compute. reflexivity. Qed.
+Lemma ob_code_default : code_default = 500.
+Proof. vm_compute. reflexivity. Qed.
+Lemma ob_code_canceled : code_canceled = 500.
+Proof. vm_compute. reflexivity. Qed.
+Lemma ob_max_consecutive_errors : max_consecutive_errors = 5.
+Proof. vm_compute. reflexivity. Qed.
+Lemma ob_error_header : error_header = b "X-Forwarder-Error".
 Proof. vm_compute. reflexivity. Qed.
 
 (* --- the transcribed functions still have the control-flow skeleton they were transcribed from --- *)
